@@ -154,7 +154,7 @@ func removeIPv6Hints(rr *dns.HTTPS) {
 // filters of the server filters.  Removes IPv6 hints if IPv6 resolving is
 // disabled.
 func (s *Server) filterHTTPSRecords(rr *dns.HTTPS, setts *filtering.Settings) (r *filtering.Result, err error) {
-	if s.conf.AAAADisabled {
+	if s.aaaaDisabled() {
 		removeIPv6Hints(rr)
 	}
 
